@@ -614,7 +614,7 @@ pub fn fixed_strategies(_u: &Value) -> Vec<Strat> {
 pub fn is_custom_safe(u: &Value) -> bool {
     fn rec(v: &Value) -> bool {
         match v {
-            Value::Object(m) => m.iter().all(|(k, x)| !k.is_empty() && !k.contains('.') && !k.contains('[') && rec(x)),
+            Value::Object(m) => m.iter().all(|(k, x)| !k.contains('.') && !k.contains('[') && rec(x)),
             Value::Array(a) => a.iter().all(rec),
             _ => true,
         }
